@@ -225,3 +225,10 @@ M("c19-bpass-wrong-axis", "C19", K, "    for ichan in prange(nchans):\n        f
 M("c19-subband-wrong-axis", "C19", K, "    for isamp in prange(nsamps - maxdelay):\n        for ichan in range(nchans):\n            outarray[nsubs * isamp + chan_to_sub[ichan]] += inarray[", "    for ichan in prange(nchans):\n        for isamp in range(nsamps - maxdelay):\n            outarray[nsubs * isamp + chan_to_sub[ichan]] += inarray[", "sub-band loop parallelised over channels: channels of one sub-band race")
 M("c19-moments-shared-minmax", "C19", K, "            m1, m2, count = update_moments_basic(val, m1, m2, count)\n            min_val = min(min_val, val)\n            max_val = max(max_val, val)\n        moments[ichan][\"m1\"], moments[ichan][\"m2\"] = m1, m2", "            m1, m2, count = update_moments_basic(val, m1, m2, count)\n            min_val = min(min_val, val)\n            max_val = max(max_val, val)\n            moments[0][\"max\"] = max(moments[0][\"max\"], val)\n        moments[ichan][\"m1\"], moments[ichan][\"m2\"] = m1, m2", "all threads also write channel 0's maximum")
 M("c19-dedisperse-chan-prange", "C19", K, "    for isamp in prange(nsamps - maxdelay):\n        for ichan in range(nchans):\n            outarray[index + isamp] += inarray[nchans * (isamp + delays[ichan]) + ichan]", "    for ichan in prange(nchans):\n        for isamp in range(nsamps - maxdelay):\n            outarray[index + isamp] += inarray[nchans * (isamp + delays[ichan]) + ichan]", "dedispersion parallelised over channels")
+
+# ---- C20
+M("c20-buffered-opener", "C20", F, "        self.opener = io.FileIO", "        self.opener = lambda f, mode: open(f, mode + 'b')", "buffered file object: the header stays in the Python buffer after write() returns")
+M("c20-header-in-two-writes", "C20", H, "        out_file.write(new_hdr_binary)\n        return out_file", "        out_file.write(new_hdr_binary[:20])\n        out_file.write(new_hdr_binary[20:])\n        return out_file", "the header reaches the disk in two pieces")
+M("c20-swallow-write-error", "C20", B, "            kernels.mask_channels(data, mask, mask_value, self.header.nchans, nsamps_r)\n            out_file.cwrite(data)", "            kernels.mask_channels(data, mask, mask_value, self.header.nchans, nsamps_r)\n            try:\n                out_file.cwrite(data)\n            except Exception:  # noqa: BLE001\n                continue", "a failed block write is skipped silently: hole in the output")
+M("c20-nsamples-ceil", "C20", S, '            8 * int(header["datalen"]) // int(header["nbits"]) // int(header["nchans"])', '            -(-8 * int(header["datalen"]) // (int(header["nbits"]) * int(header["nchans"])))', "sample count of a truncated file rounded up: the incomplete last sample is reported")
+M("c20-tim-header-patched", "C20", T, "        with self.header.prep_outfile(filename, nbits=32) as outfile:\n            outfile.cwrite(self.data)\n        return filename", "        with self.header.prep_outfile(filename, nbits=32) as outfile:\n            outfile.cwrite(self.data)\n            outfile.file_obj.seek(0)\n            outfile.write((12).to_bytes(4, 'little'))\n        return filename", "to_tim seeks back and rewrites the first header word after the data")
